@@ -3145,6 +3145,12 @@ class NetCDFRead(IORead):
             g["formula_terms"][coord_ncvar]["coord"][term] = ncvar
 
         bounds_ncvar = g["variable_attributes"][coord_ncvar].get("bounds")
+        if bounds_ncvar is not None and g["has_groups"]:
+            # Replace a flattened name with an absolute name
+            # (CF>=1.8)
+            bounds_ncvar = g["flattener_variables"].get(
+                bounds_ncvar, bounds_ncvar
+            )
 
         if bounds_ncvar is None:
             # --------------------------------------------------------
